@@ -76,6 +76,7 @@ RULE = (
     "generated chunking with would-block/EOF/deadline events and partial sends; non-trivial "
     "= a frame arrived in >= 3 chunks with a would-block in between.  splits: enumerated "
     "split-point sets and fault positions of fixed small frames.  distinct by SHA-1 of the case"
+    ' Part backend_deadline: the real asyncio backend socket wrappers over an in-memory transport under expired/zero/none/far deadlines (49 enumerated cases).'
 )
 ASSUMPTIONS = [
     "vlib/ref/net_model.py + vlib/ref/wire.py (independent encoder/decoder/interpreter) are "
